@@ -111,6 +111,13 @@ def run_model_and_steps(chk, prop, tier, pkey=None):
         chk.add_tlc(res, "YkConc program %s: all interleavings (LinOK, ScanOK, Quiescent, Termination under WF)" % pg)
         if not res.ok:
             chk.error("YkConc model check %s did not pass (says nothing about the code): %s" % (pg, tlc_tail(res, 12)))
+    # root-border split racing with readers (YkConc2): all interleavings, fan-out 3 and 5
+    if pk in ("C01", "C09", "C08c"):
+        for cfg in (["a", "b", "e"] if tier == "quick" else ["a", "b", "c", "d", "e", "f", "g"]):
+            res = tlc("MC_Conc2", "MC_Conc2_%s.cfg" % cfg, workers=8, timeout=900)
+            chk.add_tlc(res, "YkConc2 config %s: root border split + new interior root vs 2 readers (LinOK, Quiescent, Termination under WF)" % cfg)
+            if not res.ok:
+                chk.error("YkConc2 model check %s did not pass (says nothing about the code): %s" % (cfg, tlc_tail(res, 12)))
     exe = build("stepdrv", ["stepdrv.cpp"], sessions=16)
     init = {"A": "{1, 2}", "B": "{1, 2}", "C": "{1, 2}", "D": "{1}"}
     nruns = 40 if tier == "quick" else 400
